@@ -12,6 +12,7 @@ package main
 // snapshot listing and its index loading), and records the global trace.
 
 import (
+	"bytes"
 	"context"
 	"fmt"
 	"io"
@@ -24,7 +25,11 @@ import (
 	"time"
 
 	"github.com/restic/restic/internal/backend"
+	"github.com/restic/restic/internal/backend/limiter"
+	"github.com/restic/restic/internal/backend/location"
 	"github.com/restic/restic/internal/backend/mem"
+	"github.com/restic/restic/internal/global"
+	"github.com/restic/restic/internal/ui/termstatus"
 )
 
 var _ = verifRegister("C14", streamC14)
@@ -38,6 +43,11 @@ type c14Sched struct {
 	rops      map[string][]string
 	rpos      map[string][]int // global position (number of writer events so far) of each reader op
 	mutations int
+	// probe, if set, is called (outside the lock, before Save returns to the writer) right after a
+	// writer's snapshot file became visible: the scheduler runs a complete reader at exactly that
+	// point of the global order — a legal schedule, and the worst one for a writer that publishes a
+	// snapshot before its data is indexed.
+	probe func(snapshot string)
 }
 
 func (s *c14Sched) mutationCount() int {
@@ -57,6 +67,7 @@ type c14Backend struct {
 	s      *c14Sched
 	proc   string
 	reader bool
+	nogate bool // probe readers run at once
 	seen   int
 }
 
@@ -64,7 +75,7 @@ type c14Backend struct {
 // the reader's previous operation.
 func (b *c14Backend) gate(interesting bool) {
 	if b.reader {
-		if !interesting {
+		if !interesting || b.nogate {
 			return
 		}
 		deadline := time.Now().Add(40 * time.Millisecond)
@@ -96,7 +107,6 @@ func (b *c14Backend) Save(ctx context.Context, h backend.Handle, rd backend.Rewi
 	data, _ := io.ReadAll(rd)
 	_ = rd.Rewind()
 	b.s.mu.Lock()
-	defer b.s.mu.Unlock()
 	err := b.Backend.Save(ctx, h, rd)
 	if h.Type == backend.PackFile || h.Type == backend.IndexFile || h.Type == backend.SnapshotFile {
 		b.s.events = append(b.s.events, Event{N: len(b.s.events), Op: "save", Type: h.Type.String(), Name: h.Name, Err: err != nil, Data: data})
@@ -104,6 +114,11 @@ func (b *c14Backend) Save(ctx context.Context, h backend.Handle, rd backend.Rewi
 		if err == nil {
 			b.s.mutations++
 		}
+	}
+	probe := b.s.probe
+	b.s.mu.Unlock()
+	if err == nil && h.Type == backend.SnapshotFile && probe != nil && !b.reader {
+		probe(h.Name)
 	}
 	return err
 }
@@ -169,6 +184,60 @@ func (b *c14Backend) List(ctx context.Context, t backend.FileType, fn func(backe
 
 func (b *c14Backend) Unwrap() backend.Backend { return b.Backend }
 
+// c14Loc / c14MultiRun: the real CLI with several in-memory repositories ("mem:<name>"), needed
+// for `copy --from-repo`.
+type c14Loc struct{ name string }
+
+func c14MultiRun(ctx context.Context, bes map[string]backend.Backend, args ...string) (res CmdResult) {
+	return c14MultiRunIn(ctx, bes, nil, args...)
+}
+
+func c14MultiRunIn(ctx context.Context, bes map[string]backend.Backend, stdin []byte, args ...string) (res CmdResult) {
+	cliMu.Lock()
+	os.Setenv("RESTIC_PASSWORD", "geheim")
+	os.Setenv("RESTIC_FROM_PASSWORD", "geheim")
+	open := func(_ context.Context, c c14Loc, _ limiter.Limiter, _ func(string, ...any)) (backend.Backend, error) {
+		be, ok := bes[c.name]
+		if !ok {
+			return nil, fmt.Errorf("no such in-memory repository %q", c.name)
+		}
+		return be, nil
+	}
+	reg := location.NewRegistry()
+	reg.Register(location.NewLimitedBackendFactory[c14Loc, backend.Backend]("mem",
+		func(s string) (*c14Loc, error) { return &c14Loc{name: strings.TrimPrefix(s, "mem:")}, nil },
+		location.NoPassword, open, open))
+	gopts := global.Options{Backends: reg}
+	var stdout, stderr bytes.Buffer
+	term, cancelTerm := termstatus.Setup(io.NopCloser(bytes.NewReader(stdin)), &stdout, &stderr, false)
+	gopts.Term = term
+	cctx, cancel := context.WithCancel(ctx)
+	root := newRootCommand(&gopts)
+	root.SetArgs(append([]string{"--no-cache"}, args...))
+	root.SetOut(&stdout)
+	root.SetErr(&stderr)
+	cliMu.Unlock()
+	panicked, msg := Protect(func() {
+		err := root.ExecuteContext(cctx)
+		switch err {
+		case nil:
+			err = cctx.Err()
+		case ErrOK:
+			err = nil
+		}
+		res.Err = err
+	})
+	cancel()
+	cancelTerm()
+	res.Stdout, res.Stderr = stdout.String(), stderr.String()
+	if panicked {
+		res.Panic, res.Exit, res.Err = msg, 2, fmt.Errorf("panic: %s", msg)
+		return
+	}
+	res.Exit = exitCodeOf(res.Err)
+	return
+}
+
 type c14Reader struct {
 	name string
 	args func(olds []string, src string, tmp string) []string
@@ -179,6 +248,11 @@ func streamC14(h *H) {
 	c11InstallIndexFull()
 	root := MkTemp("c14-")
 	defer os.RemoveAll(root)
+	// sub-stream `fuse`: the long-running reader (mount), driven in-process
+	nf := h.N(30, 300)
+	for i := 0; i < nf; i++ {
+		c14FuseScenario(h, root, i)
+	}
 	n := h.N(24, 96)
 	for i := 0; i < n; i++ {
 		c14Scenario(h, root, i)
@@ -222,19 +296,79 @@ func c14Scenario(h *H, root string, si int) {
 	ctx, cancel := context.WithTimeout(context.Background(), 300*time.Second)
 	defer cancel()
 	var wg sync.WaitGroup
-	wres := make([]CmdResult, nw)
-	delays := make([]int, nw)
+	type rrun struct {
+		proc, name string
+		res        CmdResult
+	}
+	var rruns []rrun
+	var rmu sync.Mutex
+	var probeN int
+	sched.probe = func(snapshot string) {
+		rmu.Lock()
+		probeN++
+		proc := fmt.Sprintf("p%d", probeN)
+		rmu.Unlock()
+		cli := NewCLI(&c14Backend{Backend: be, s: sched, proc: proc, reader: true, nogate: true})
+		res := cli.RunCtx(ctx, "ls", snapshot)
+		res.Stdout = ""
+		if res.Err != nil {
+			res.Stderr = res.Err.Error() + " | " + firstLine(res.Stderr)
+		}
+		rmu.Lock()
+		rruns = append(rruns, rrun{proc, "probe-ls", res})
+		rmu.Unlock()
+	}
+	// sometimes `copy` is one of the writers: a source repository with three snapshots, the second
+	// one of an unchanged tree (shares all its data with the first)
+	withCopy := h.Intn(2) == 0
+	var srcBe backend.Backend
+	if withCopy {
+		srcBe = mem.New()
+		bes := map[string]backend.Backend{"src": srcBe}
+		// identical trees need identical metadata of everything in the tree, ancestors of the
+		// backup target included — so the source snapshots are made from stdin with a fixed time
+		blobA, blobB := h.Bytes(600000+h.Intn(900000)), h.Bytes(300000+h.Intn(600000))
+		if r := c14MultiRun(ctx, bes, "-r", "mem:src", "init"); r.Err != nil {
+			panic(fmt.Sprintf("c14: preparing the copy source failed: %v\n%s", r.Err, r.Stderr))
+		}
+		for i, blob := range [][]byte{blobA, blobA, blobB} {
+			r := c14MultiRunIn(ctx, bes, blob, "-r", "mem:src", "backup", "--stdin", "--stdin-filename", "blob.bin",
+				"--time", "2020-02-03 04:05:06", "--host", fmt.Sprintf("c%d", i))
+			if r.Err != nil {
+				panic(fmt.Sprintf("c14: preparing the copy source failed: %v\n%s", r.Err, r.Stderr))
+			}
+		}
+		a12RemoveLocks(srcBe)
+	}
+	nproc := nw
+	if withCopy {
+		nproc++
+		sched.writers = nproc
+	}
+	wres := make([]CmdResult, nproc)
+	wname := make([]string, nproc)
+	delays := make([]int, nproc)
 	for w := range delays {
 		delays[w] = h.Intn(60)
 	}
-	for w := 0; w < nw; w++ {
+	for w := 0; w < nproc; w++ {
 		wg.Add(1)
 		go func(w int) {
 			defer wg.Done()
 			time.Sleep(time.Duration(delays[w]) * time.Millisecond)
-			cli := NewCLI(&c14Backend{Backend: be, s: sched, proc: fmt.Sprintf("w%d", w)})
-			cli.Extra = cliExtra
-			wres[w] = cli.RunCtx(ctx, "backup", wtrees[w].dir, "--host", fmt.Sprintf("w%d", w))
+			if w < nw {
+				wname[w] = fmt.Sprintf("w%d", w)
+				cli := NewCLI(&c14Backend{Backend: be, s: sched, proc: wname[w]})
+				cli.Extra = cliExtra
+				wres[w] = cli.RunCtx(ctx, "backup", wtrees[w].dir, "--host", wname[w])
+			} else {
+				wname[w] = "wc"
+				bes := map[string]backend.Backend{"src": srcBe, "r": &c14Backend{Backend: be, s: sched, proc: "wc"}}
+				wres[w] = c14MultiRun(ctx, bes, "-r", "mem:r", "--pack-size", "4", "copy", "--from-repo", "mem:src")
+				if wres[w].Err != nil {
+					wres[w].Stderr = wres[w].Err.Error() + " | " + firstLine(wres[w].Stderr)
+				}
+			}
 			sched.mu.Lock()
 			sched.writers--
 			sched.mu.Unlock()
@@ -250,12 +384,6 @@ func c14Scenario(h *H, root string, si int) {
 		{"check", func(_ []string, _ string, _ string) []string { return []string{"check", "--no-lock"} }},
 		{"cat", func(_ []string, newest string, _ string) []string { return []string{"cat", "tree", newest} }},
 	}
-	type rrun struct {
-		proc, name string
-		res        CmdResult
-	}
-	var rruns []rrun
-	var rmu sync.Mutex
 	order := h.Rng.Perm(len(readers))
 	startDelay := []int{h.Intn(40), 20 + h.Intn(80)}
 	var rwg sync.WaitGroup
@@ -310,8 +438,8 @@ func c14Scenario(h *H, root string, si int) {
 	for i, e := range sched.events {
 		a12EmitEvents(h, dec, in, sched.procs[i], []Event{e}, final)
 	}
-	for w := 0; w < nw; w++ {
-		h.Rec("wres", fmt.Sprintf("w%d", w), Itoa(wres[w].Exit), HexS(firstLine(wres[w].Stderr)))
+	for w := 0; w < nproc; w++ {
+		h.Rec("wres", wname[w], Itoa(wres[w].Exit), HexS(firstLine(wres[w].Stderr)))
 	}
 	// position bookkeeping: events with Err are not emitted, so translate positions
 	emitted := make([]int, len(sched.events)+1)
